@@ -176,3 +176,122 @@ def check_C09(run, replay=None):
     run.trusted += ["hand-written models coq/Bridge/Slab.v (slab 0.4.9) and coq/Bridge/Bridge.v", "harness/src/bin/bridge_twin.rs + bridge_common (test apps, "
                     "typed mirror rule = Bridge.translate, real serde decoding, catch_unwind)", "verif hook Bridge::verif_registry (read-only)",
                     "lib/common.py parser of coqc output, engines/bridge_eng.py JSON->Coq printer"]
+
+# ---------------------------------------------------------------- C02
+def coq_arity_step(st):
+    a = st["act"]
+    k = a[0]
+    if k == "run": act = "ORun"
+    elif k == "resolve": act = "OResolve %s %s" % (nat(a[1]), n(a[2]))
+    elif k == "ser": act = "OSer %s %s" % (nat(a[1]), "None" if int(a[2]) < 0 else "(Some %s)" % n(a[2]))
+    elif k == "ser_vacant": act = "OSerVacant"
+    elif k == "drop": act = "ODrop %s" % nat(a[1])
+    elif k == "poll": act = "OPoll"
+    elif k == "abort": act = "OAbort"
+    else: act = "ODropAll"
+    evs = lst(["(%s, %s)" % (nat(e[0]), n(e[1])) for e in st["events"]])
+    new = lst(["(%s, %s, %s)" % (nat(x[0]), KIND[x[1]], "None" if int(x[2]) < 0 else "(Some %s)" % nat(x[2])) for x in st["new"]])
+    return "mkStep (%s) %s %s %s" % (act, zlit(st["res"]), evs, new)
+
+ARITY_HEADER = ("From Coq Require Import List ZArith NArith. Import ListNotations.\n"
+                "From Crux Require Import Bridge.Bridge Bridge.Resolve Bridge.Arity.\nOpen Scope N_scope.\n")
+def arity_case_file(cases):
+    return ARITY_HEADER + "Definition cs : list (bool * bool * list ostep) := [\n" + \
+        ";\n".join("(%s, %s, %s)" % ("true" if c["auto_poll"] else "false", "true" if c["host"].endswith("_old") else "false",
+                                      lst([coq_arity_step(s) for s in c["steps"]])) for c in cases) + \
+        "].\nEval vm_compute in (diags cs).\n"
+
+def eval_arity(run, cases):
+    nsh = 16 if len(cases) > 64 else max(1, min(4, len(cases)))
+    shards = [s for s in (cases[i::nsh] for i in range(nsh)) if s]
+    res = C.run_case_files("C02", [arity_case_file(s) for s in shards])
+    out = []
+    for sh, (ok, vals, raw) in zip(shards, res):
+        if not ok or len(vals) != 1 or len(vals[0]) != 2 * len(sh):
+            run.oblige("case-evaluation shard (coqc vm_compute)", False, raw[-800:]); continue
+        for k, c in enumerate(sh):
+            out.append((c, vals[0][2 * k], vals[0][2 * k + 1]))
+    return out
+
+def check_C02(run, replay=None):
+    tier = run.tier
+    count = 420 if tier == "quick" else 7000
+    max_steps = 30 if tier == "quick" else 60
+    C.proof_stage(run, "C02")
+    profiles = [False] if tier == "quick" else [False, True]
+    rp = json.load(open(replay)) if replay else None
+    seed = run.seed
+    if rp and rp.get("rerun"):
+        seed, count, max_steps = rp["rerun"]["seed"], rp["rerun"]["count"], rp["rerun"]["max_steps"]
+        profiles = [bool(rp["rerun"].get("release"))]
+    cases = []
+    for c in corpus_cases("C02"):
+        c = dict(c); c["origin"] = "corpus"; c.setdefault("profile", "corpus"); cases.append(c)
+    built = False
+    for rel in profiles:
+        prof = "release" if rel else "dev"
+        ok, log, bins = C.harness_build(["bridge_arity"], release=rel)
+        run.oblige("harness-build bridge_arity (%s, --cfg crux_verif) from the repository's working tree" % prof, ok, log[-1500:])
+        if not ok: continue
+        built = True
+        rc, out = C.sh("%s %d %d %d" % (bins["bridge_arity"], seed, count, max_steps), timeout=1200)
+        crashed = 0
+        for l in out.splitlines():
+            if l.startswith("{"):
+                c = json.loads(l)
+                if c.get("harness_panic"): crashed += 1; continue
+                c["profile"] = prof; c["origin"] = "generated seed=%d" % seed; cases.append(c)
+        run.oblige("harness-run bridge_arity (%s) completed every case" % prof, rc == 0 and crashed == 0,
+                   "rc=%d, cases on which the harness's own bookkeeping broke: %d; %s" % (rc, crashed, out[-300:] if rc else ""))
+    if rp:
+        sel = {(c.get("case"), c.get("host"), c.get("profile")) for c in rp.get("cases", [])}
+        again = [c for c in cases if (c.get("case"), c.get("host"), c.get("profile")) in sel and c.get("origin") != "corpus"]
+        cases = again if (built and again) else rp.get("cases", cases)
+    results = eval_arity(run, cases)
+    acts = collections.Counter(); codes = collections.Counter(); hosts = collections.Counter()
+    bad_ok, bad_model = [], []
+    for c, v, step in results:
+        hosts["%s/%s" % (c["host"], c.get("profile"))] += 1
+        rejected = late = 0
+        for s in c["steps"]:
+            acts[s["act"][0]] += 1
+            if s["act"][0] in ("resolve", "ser", "ser_vacant"):
+                codes[s["res"]] += 1
+                if s["res"] != 0: rejected += 1
+        run.note_case((c["host"], c.get("profile"), json.dumps(c["steps"], sort_keys=True)), nontrivial=rejected > 0)
+        run.cov["traces_validated_against_impl"] += 1
+        if v == 2: bad_ok.append((c, step))
+        elif v != 0: bad_model.append((c, step))
+    run.oblige("correspondence coq/Bridge/Resolve.v = Core::resolve / Request::resolve / Bridge::handle_response on %d cases" % len(results),
+               not bad_model and len(results) > 0,
+               json.dumps([{"host": c["host"], "profile": c.get("profile"), "case": c.get("case"), "step": s, "observed": c["steps"][s] if s < len(c["steps"]) else None} for c, s in bad_model[:4]]))
+    run.oblige("C02_ok holds on every implementation trace (result class = arity automaton, every continuation got exactly the values resolved into its own requests)",
+               not bad_ok, json.dumps([{"host": c["host"], "profile": c.get("profile"), "case": c.get("case"), "step": s, "observed": c["steps"][s] if s < len(c["steps"]) else None} for c, s in bad_ok[:4]]))
+    def rerun_of(c): return {"seed": seed, "count": count, "max_steps": max_steps, "release": c.get("profile") == "release"}
+    if bad_ok:
+        bad_ok.sort(key=lambda x: x[1])
+        c, s = bad_ok[0]
+        run.violation("C02_ok", {"property": "C02", "what": "a resolution was accepted/rejected against the declared arity, or a task received a value "
+                                 "that was not resolved into its own request (or not in order / not once)", "first_offending_step": s, "rerun": rerun_of(c),
+                                 "cases": [shrink_case(c, s)] + [shrink_case(cc, ss) for cc, ss in bad_ok[1:6]],
+                                 "how_to_replay": "./check C02 --replay <this file> regenerates the cases from `rerun` against the current code; step = "
+                                                  "{act, res (0 ok | error code | 9 panic), events [(task serial, value)], new [(owner serial, arity, limit)]}, see coq/Bridge/Arity.v"})
+    elif bad_model:
+        bad_model.sort(key=lambda x: x[1])
+        c0 = bad_model[0][0]
+        run.violation("correspondence", {"property": "C02", "what": "request-layer model and implementation differ (error code or end-of-stream mark); C02_ok still holds on every trace seen",
+                                         "broken": "correspondence coq/Bridge/Resolve.v vs crux_core", "rerun": rerun_of(c0),
+                                         "cases": [dict(shrink_case(c, s), at_step=s) for c, s in bad_model[:8]]}, no_input=True)
+    run.cov["rule"] = ("7 hosts (typed Core::resolve on the Command-API app and on the legacy-capability app; Bridge bincode and BridgeWithSerializer json on both; "
+                       "a bare Command with explicit poll/abort/drop) x histories of 4..%d steps: events spawning 1..7 tasks (one-shot u64/String requests with chains, "
+                       "streams with consumers that end after 1..3 values or never, notifications; few labels so operations are often equal), resolutions of outstanding, "
+                       "already answered and notification requests, undecodable bodies, vacant ids, dropped requests, late resolutions after abort/drop/finish. "
+                       "A case is counted when distinct; non-trivial when at least one resolution is rejected." % max_steps)
+    run.cov["samples"] = [{"host": c["host"], "steps": c["steps"][:3]} for c, _, _ in results[:2]]
+    run.extra["distribution"] = {"steps_by_action": dict(acts), "resolution_results": {str(k): v for k, v in codes.items()}, "cases_by_host_profile": dict(hosts)}
+    run.assumptions += ["what a task does with a value (send it on as an event) and when it ends are the test apps' (harness/src/bin/bridge_common); the order in which "
+                        "tasks run inside one call is not compared (events are sorted by task) - that is C01/C03's subject",
+                        "legacy capabilities: a stream whose request the shell drops is never ended (nothing wakes its task); modelled as such (ch_legacy)"]
+    run.trusted += ["hand-written model coq/Bridge/Resolve.v", "harness/src/bin/bridge_arity.rs + bridge_common (test apps, Mark notifications linking a request to its task, "
+                    "real serde for bodies, catch_unwind)", "verif hook Bridge::verif_registry (read-only, to tell which request an id addresses)",
+                    "lib/common.py parser of coqc output, engines/bridge_eng.py JSON->Coq printer"]
